@@ -33,6 +33,8 @@ func init() {
 		if shard == 0 {
 			emit("lockfacts Client")
 			emit("lockfacts SerialClient")
+			emit("connrace 4")
+			emit("connrace 8")
 		}
 		n := 40
 		if tier == "thorough" {
